@@ -953,3 +953,45 @@ package anytype
 //@   requires invO(ego)
 //@   assigns  everything
 //@   panics_iff indent < 0 || indent > 10
+
+// ---------------------------------------------------------------------------
+// Equality (C07): isEqual == typed structural equality eqS
+// ---------------------------------------------------------------------------
+
+//@ iface field.isEqual pure [C07]
+//@   requires isField(self) && okVal(self)
+//@   requires other-ok: another == nil || (isField(another) && okVal(another))
+//@   panics_iff false
+//@   ensures  eq: result == eqS(self, another)
+
+//@ func (*atString).isEqual implements=field.isEqual
+//@ func (*atBool).isEqual implements=field.isEqual
+//@ func (*atInt).isEqual implements=field.isEqual
+//@ func (*atFloat).isEqual implements=field.isEqual
+//@ func (*atNil).isEqual implements=field.isEqual
+
+//@ func (*list).isEqual implements=field.isEqual
+//@   loop 1
+//@     invariant range: 0 <= idx && idx <= len(ego.val) && len(ego.val) == len(list.val)
+//@     invariant prefix: forall k int :: 0 <= k && k < idx ==> eqS(ego.val[k], list.val[k])
+//@     decreases len(ego.val) - idx
+
+//@ func (*object).isEqual implements=field.isEqual
+//@   requires trig: isVObj(another) ==> subsetCard(mapid(ego.val), mapid(obj(voref(another)).val))
+//@   loop 1
+//@     invariant range: 0 <= idx && idx <= ordn && ordn == len(ego.val) && len(ego.val) == len(obj.val)
+//@     invariant prefix: forall k str :: has(ego.val, k) && ordpos[k] < idx ==> eqS(ego.val[k], has(obj.val, k) ? obj.val[k] : nil)
+//@     invariant trig: subsetCard(mapid(ego.val), mapid(obj.val))
+//@     decreases ordn - idx
+
+//@ func (*list).Equals pure [C07 C09]
+//@   requires invL(ego)
+//@   requires other-ok: another == nil || okVal(another)
+//@   panics_iff false
+//@   ensures  eq: result == eqS(ego.ptr, another)
+
+//@ func (*object).Equals pure [C07 C09]
+//@   requires invO(ego)
+//@   requires other-ok: another == nil || okVal(another)
+//@   panics_iff false
+//@   ensures  eq: result == eqS(ego.ptr, another)
